@@ -3,6 +3,7 @@ from __future__ import annotations
 
 import asyncio
 import itertools
+import random
 import struct
 
 from cryptography.exceptions import InvalidTag
@@ -16,10 +17,16 @@ import aiohomekit.controller.ip.connection as ipc
 ID = "C05"
 RULE = ("outbound: payload lengths {0,1,1023,1024,1025,2047,2048,2049,3072,...} + random <=20000, any start counter; inbound: accessory frame sizes 1..1024 "
         "(small 1..16 for the exhaustive part), EVERY single and double cut of streams <=~110 bytes, random multi-cut and byte-at-a-time on larger ones, "
-        "every single-bit corruption of length prefix / ciphertext / tag on small streams. non-trivial = distinct (stream kind, #frames, cut pattern class, outcome)")
+        "every single-bit corruption of length prefix / ciphertext / tag on small streams; LARGE streams (60 KiB..300 KiB of plaintext, 60..~5000 frames: all-1024, "
+        "mixed, uniform 1..1024, many small frames) delivered as ONE read, as 256 KiB / 64 KiB / 16 KiB / 1460-byte reads, reads of 65535..65555 and 128 KiB, a few random cuts, "
+        "a partial frame followed by the whole burst, a burst followed by a trickle - valid, truncated in the tail and single-bit-corrupted late in the burst; large requests "
+        "(64 KiB..300 KiB, exact multiples of 1024 and +-1); whole sessions with the real HTTP layer on top (large request -> reference accessory, large Content-Length response "
+        "[+ an EVENT right behind it] -> the request future / event_received, several exchanges per session). "
+        "non-trivial = distinct (stream kind, #frames, cut pattern class, outcome)")
 TRUSTED = ["cryptography's ChaCha20Poly1305 as the reference accessory AEAD", "Lean Real ChaCha20-Poly1305 (validated differentially in this run)"]
 ASSUMPTIONS = ["asyncio closes the transport when data_received raises (the model's `none` state = session ended)",
-               "the HTTP layer above the decrypted blocks is replaced by a byte sink here (C07 covers it)"]
+               "the HTTP layer above the decrypted blocks is replaced by a byte sink here (C07 covers it), except in the 'e2e' sessions which keep the real one and only "
+               "send plain Content-Length messages through it"]
 EXPLANATION = "Lean theorems C05_* over the frame-loop model with an abstract AEAD; model tied to SecureHomeKitProtocol by differential streams send/recv"
 
 
@@ -148,6 +155,255 @@ def impl_recv_str(loop, key, ctr, buf, chunks):
 
 def rb(rng, n):
     return bytes(rng.randrange(256) for _ in range(n))
+
+
+# ---------------------------------------------------------------------------------------------------------------------
+# large streams: a case is described by small numbers (seeds, sizes, read lengths) so that it stays replayable without
+# carrying hundreds of kilobytes of hex
+
+LARGE_MODES = ("all-1024", "mixed", "uniform", "small")
+SCHEDS = ("one-read", "256k", "64k", "16k", "mss", "around-64k", "few-cuts", "partial-then-burst", "burst-then-trickle")
+_FIXED = {"256k": 262144, "64k": 65536, "16k": 16384, "mss": 1460}
+
+
+def _split(r, data, mode):
+    """the accessory's frame-size choice (every frame 1..1024 plaintext bytes)"""
+    blocks, off = [], 0
+    while off < len(data):
+        if mode == "all-1024":
+            n = 1024
+        elif mode == "mixed":
+            n = r.choice([1, 2, 100, 1023, 1024, r.randrange(1, 1025)])
+        elif mode == "uniform":
+            n = r.randrange(1, 1025)
+        else:
+            n = r.randrange(1, 65)
+        blocks.append(data[off:off + n])
+        off += n
+    return blocks
+
+
+def _large_blocks(pseed, total, mode):
+    r = random.Random(pseed)
+    return _split(r, r.randbytes(total), mode)
+
+
+def _sched_reads(rng, L, sched):
+    """read lengths (sum = L) of one delivery schedule of an L-byte stream"""
+    if L <= 0:
+        return []
+    if sched == "one-read":
+        cuts = []
+    elif sched in _FIXED:
+        cuts = range(_FIXED[sched], L, _FIXED[sched])
+    elif sched == "around-64k":
+        n = rng.choice([65535, 65536, 65537, 65552, 65553, 65554, 65555, 131072])
+        cuts = range(n, L, n)
+    elif sched == "few-cuts":
+        cuts = [rng.randrange(1, max(L, 2)) for _ in range(rng.randrange(1, 5))]
+    elif sched == "partial-then-burst":
+        cuts = [rng.randrange(1, 2100)]
+    else:  # burst-then-trickle
+        a = rng.randrange(L // 2, L) if L > 2 else 1
+        cuts = [a] + list(range(a + 1460, L, 1460))
+    cuts = sorted({c for c in cuts if 0 < c < L})
+    pts = [0] + cuts + [L]
+    return [b - a for a, b in zip(pts, pts[1:])]
+
+
+def _chunks_of(stream, reads):
+    out, off = [], 0
+    for n in reads:
+        out.append(stream[off:off + n])
+        off += n
+    return out
+
+
+def _send_payload(c):
+    """payload of a send case: hex, '-' or 'seed:<s>:<n>' (large ones)"""
+    pl = c["payload"]
+    if pl == "-":
+        return b""
+    if pl.startswith("seed:"):
+        _, sd, n = pl.split(":")
+        return random.Random(int(sd)).randbytes(int(n))
+    return bytes.fromhex(pl)
+
+
+def _send_verdict(key, ctr, payload, calls, c):
+    flat = [x for call in calls for x in call]
+    chunks = ref_read(key, ctr, b"".join(flat))
+    ok = (chunks is not None and b"".join(chunks) == payload and all(0 < len(ch) <= 1024 for ch in chunks)
+          and all(len(ch) == 1024 for ch in chunks[:-1]) and c == ctr + len(chunks))
+    return ok, flat, chunks
+
+
+_LAST = [None, None, None, None]  # the accessory side of the last large stream (the same stream is fed under many schedules)
+
+
+def large_recv(loop, case):
+    """one large inbound case, expectation from the harness's own bookkeeping of what the accessory sent.
+    -> (signature or None, what, impl string for the model, chunks, #frames, err)"""
+    key = bytes.fromhex(case["key"])
+    ctr = case["ctr"]
+    ident = (case["key"], ctr, case["pseed"], case["total"], case["mode"])
+    if _LAST[0] != ident:
+        blocks = _large_blocks(case["pseed"], case["total"], case["mode"])
+        offs, off = [], 0
+        for b in blocks:
+            offs.append(off)
+            off += 2 + len(b) + 16
+        _LAST[:] = [ident, blocks, ref_frames(key, ctr, blocks), offs]
+    _, blocks, stream, offs = _LAST
+    expect, expect_err = blocks, False
+    if case.get("flip") is not None:
+        bit = case["flip"]
+        bad = bytearray(stream)
+        bad[bit // 8] ^= 1 << (bit % 8)
+        stream = bytes(bad)
+        nb = max(i for i, o in enumerate(offs) if o <= bit // 8)
+        expect, expect_err = blocks[:nb], True
+        if bit // 8 - offs[nb] < 2:
+            # altered length prefix: the reader fails if a whole frame of the altered length is there, else it waits
+            n = struct.unpack("<H", stream[offs[nb]:offs[nb] + 2])[0]
+            expect_err = offs[nb] + 2 + n + 16 <= len(stream)
+    if case.get("cut_at") is not None:
+        stream = stream[:case["cut_at"]]
+        expect = [b for b, o in zip(blocks, offs) if o + 2 + len(b) + 16 <= case["cut_at"]]
+    chunks = _chunks_of(stream, case["reads"])
+    s, d, err = impl_recv_str(loop, key, ctr, b"", chunks)
+    sig = what = None
+    got, want = b"".join(d), b"".join(expect)
+    reads = case["reads"]
+    rd = f"{len(reads)} read(s) of {reads[:6]}{'...' if len(reads) > 6 else ''} bytes"
+    if err and err.startswith("exc"):
+        sig, what = "recv-large/" + err, f"data_received raised {err} on a {len(stream)}-byte stream of {len(blocks)} frames ({case['mode']}) delivered as {rd}"
+    elif got != want or (err == "err") != expect_err:
+        sig = "recv-large/" + case["kind"]
+        what = (f"{case['kind']} stream of {len(stream)} bytes ({len(blocks)} frames, {case['mode']}) delivered as {rd} [{case['sched']}]: {len(got)} plaintext bytes "
+                f"reached the application (err={err}) but the accessory sent {len(want)} authentic bytes before the stream end/first bad frame (expect_err={expect_err})"
+                + ("" if got == want[:len(got)] else "; what was delivered is not even a prefix of it"))
+    return sig, what, s, chunks, len(blocks), err
+
+
+# ---------------------------------------------------------------------------------------------------------------------
+# whole sessions with the real HTTP layer on top
+
+class _Transport2:
+    def __init__(self):
+        self.out = bytearray()
+        self.closed = False
+
+    def is_closing(self):
+        return self.closed
+
+    def writelines(self, lines):
+        for x in lines:
+            self.out += x
+
+    def write(self, data):
+        self.out += data
+
+    def write_eof(self):
+        pass
+
+    def close(self):
+        self.closed = True
+
+    def abort(self):
+        self.closed = True
+
+
+class _Conn2:
+    def __init__(self):
+        self.protocol = None
+        self.closing = False
+        self.closed = False
+        self.lost = None
+        self.events = []
+
+    def _connection_lost(self, exc):
+        self.lost = repr(exc)
+
+    def event_received(self, ev):
+        self.events.append(ev)
+
+
+def _e2e_messages(ex):
+    r = random.Random(ex["seed"])
+    rbody = r.randbytes(ex["req_len"])
+    req = b"PUT /characteristics HTTP/1.1\r\nHost: 192.0.2.1\r\nContent-Type: application/hap+json\r\nContent-Length: " + str(len(rbody)).encode() + b"\r\n\r\n" + rbody
+    body = r.randbytes(ex["body_len"])
+    msg = b"HTTP/1.1 200 OK\r\nContent-Type: application/hap+json\r\nContent-Length: " + str(len(body)).encode() + b"\r\n\r\n" + body
+    evbody = None
+    if ex.get("event_len"):
+        evbody = r.randbytes(ex["event_len"])
+        msg += b"EVENT/1.0 200 OK\r\nContent-Type: application/hap+json\r\nContent-Length: " + str(len(evbody)).encode() + b"\r\n\r\n" + evbody
+    return req, body, evbody, _split(r, msg, ex["mode"])
+
+
+async def _e2e_session(case):
+    """-> (signature, what) of the first deviation or None"""
+    a2c, c2a = bytes.fromhex(case["a2c"]), bytes.fromhex(case["c2a"])
+    conn = _Conn2()
+    p = ipc.SecureHomeKitProtocol(conn, a2c, c2a)
+    conn.protocol = p
+    t = _Transport2()
+    p.connection_made(t)
+    in_ctr = out_ctr = 0  # the reference accessory's own counters
+    nev = 0
+    for i, ex in enumerate(case["exchanges"]):
+        req, body, evbody, blocks = _e2e_messages(ex)
+        where = f"exchange {i} (request {len(req)} bytes, response body {ex['body_len']} bytes in {len(blocks)} frames [{ex['mode']}], reads {ex['reads'][:6]}{'...' if len(ex['reads']) > 6 else ''})"
+        fut = asyncio.ensure_future(p.send_bytes(req))
+        await asyncio.sleep(0)
+        if fut.done():
+            e = fut.exception() if not fut.cancelled() else "cancelled"
+            return "e2e/send", f"{where}: send_bytes ended before any answer: {e!r}"
+        written = bytes(t.out)
+        t.out.clear()
+        got = ref_read(c2a, in_ctr, written)
+        if got is None or b"".join(got) != req or any(len(ch) > 1024 for ch in got):
+            fut.cancel()
+            return "e2e/request", f"{where}: a conformant accessory (counter {in_ctr}) does not decode what was written to the request bytes in <=1024-byte frames"
+        in_ctr += len(got)
+        stream = ref_frames(a2c, out_ctr, blocks)
+        out_ctr += len(blocks)
+        torn = None
+        for chunk in _chunks_of(stream, ex["reads"]):
+            try:
+                p.data_received(chunk)
+            except Exception as e:  # noqa: BLE001 - what asyncio does: fatal error, transport dropped
+                torn = f"{type(e).__name__}: {e}"
+                t.closed = True
+                p.connection_lost(e)
+                break
+        await asyncio.sleep(0)
+        if not fut.done():
+            fut.cancel()
+            await asyncio.sleep(0)
+            return "e2e/response", f"{where}: the valid stream was delivered completely but the request is still waiting (torn down: {torn})"
+        if fut.cancelled() or fut.exception() is not None:
+            return "e2e/response", f"{where}: the request failed with {'cancelled' if fut.cancelled() else repr(fut.exception())} on a valid stream (torn down: {torn})"
+        resp = fut.result()
+        if bytes(resp.body) != body or resp.code != 200:
+            return "e2e/response", f"{where}: the request got code {resp.code} and a body of {len(resp.body)} bytes that is not the {len(body)} bytes the accessory sent"
+        if torn:
+            return "e2e/response", f"{where}: data_received raised {torn} on a valid stream"
+        if evbody is not None:
+            nev += 1
+            if len(conn.events) != nev or bytes(conn.events[-1].body) != evbody:
+                return "e2e/event", f"{where}: the event of {len(evbody)} bytes sent right behind the response was not delivered exactly ({len(conn.events)} events seen, {nev} sent)"
+        elif len(conn.events) != nev:
+            return "e2e/event", f"{where}: {len(conn.events)} events delivered, the accessory sent {nev}"
+    return None
+
+
+def e2e_run(loop, case):
+    try:
+        return loop.run_until_complete(_e2e_session(case))
+    except Exception as e:  # noqa: BLE001
+        return "e2e/exc " + type(e).__name__, f"session raised {type(e).__name__}: {e}"
 
 
 def run(ctx: Ctx, driver: Driver):
@@ -283,7 +539,119 @@ def run(ctx: Ctx, driver: Driver):
         one_recv("after-dropped-session", key2, 0, blocks2, s2, cuts, blocks2, False, True)
     ctx.sample({k2: (v if len(str(v)) < 300 else str(v)[:300] + "...") for k2, v in cases[0].items()})
     compare_with_model(ctx, "recv", cases, outs, lines, driver)
+    # (the streams below come last so that the ones above keep drawing the same random numbers as before)
+    _run_large_send(ctx, driver, loop)
+    _run_large_recv(ctx, driver, loop)
+    _run_e2e(ctx, loop)
     loop.close()
+
+
+def _run_large_send(ctx, driver, loop):
+    """outbound: large requests (60 KiB .. 300 KiB), exact multiples of 1024 and their neighbours"""
+    rng = ctx.rng
+    cases, outs, lines = [], [], []
+    big = [65536, 70000, 200000, 262144, 300 * 1024 - 1, 300 * 1024 + 1]
+    for i in range(ctx.budget(6, 40)):
+        if i < len(big) and ctx.tier != "search":
+            n = big[i]
+        else:
+            n = rng.choice([rng.randrange(61440, 307200), 1024 * rng.randrange(60, 300) + rng.choice([-1, 0, 1])])
+        key = rb(rng, 32)
+        ctr = rng.choice([0, 1, 255, 65535, 2 ** 32 - 1, rng.randrange(2 ** 40)])
+        case = {"stream": "send", "key": hx(key), "ctr": ctr, "payload": f"seed:{rng.randrange(2 ** 32)}:{n}"}
+        payload = _send_payload(case)
+        calls, c = impl_send(loop, key, ctr, payload)
+        ctx.evaluations += 1
+        ctx.dist["send-large"] += 1
+        if calls is None:
+            ctx.violation("send-large/" + c, f"send_bytes raised {c} for a payload of {n} bytes", case)
+            continue
+        ok, flat, chunks = _send_verdict(key, ctr, payload, calls, c)
+        ctx.nontrivial.add(("send-large", n // 65536, n % 1024 in (0, 1, 1023), ok))
+        if not ok:
+            ctx.violation("send-large/frames", f"a conformant accessory does not decode the {n}-byte request written from counter {ctr} to the request bytes in <=1024-byte frames "
+                          f"(decoded {None if chunks is None else sum(map(len, chunks))} bytes in {None if chunks is None else len(chunks)} frames, counter afterwards {c})", case)
+        if i < ctx.budget(2, 6):
+            cases.append(case)
+            outs.append(f"{c} {blocks_str(flat)}")
+            lines.append(f"sf.send {hx(key)} {ctr} {hx(payload)}")
+    compare_with_model(ctx, "send", cases, outs, lines, driver)
+
+
+def _run_large_recv(ctx, driver, loop):
+    """inbound: bursts far larger than one frame / one 64 KiB read, under every delivery schedule of SCHEDS"""
+    rng = ctx.rng
+    cases, outs, lines = [], [], []
+    nmodel = ctx.budget(4, 12)
+
+    def one(case, to_model):
+        sig, what, s, chunks, nframes, err = large_recv(loop, case)
+        ctx.evaluations += 1
+        ctx.dist[f"recv-large:{case['kind']}:{case['sched']}"] += 1
+        ctx.dist["recv-large:max-read>65553" if max(case["reads"], default=0) > 65553 else "recv-large:max-read<=65553"] += 1
+        ctx.nontrivial.add(("recv-large", case["kind"], case["mode"], case["sched"], min(case["total"] // 65536, 4), err))
+        if sig:
+            ctx.violation(sig, what, case)
+        if to_model and len(cases) < nmodel:
+            cases.append(case)
+            outs.append(s)
+            lines.append(f"sf.recv {case['key']} {case['ctr']} - " + " ".join(hx(x) for x in chunks))
+
+    for i in range(ctx.budget(20, 300)):
+        mode = LARGE_MODES[i % len(LARGE_MODES)] if i < 8 else rng.choice(LARGE_MODES)
+        if mode == "small":
+            total = rng.randrange(61440, 98304)  # thousands of frames
+        else:
+            total = rng.choice([rng.randrange(61440, 71680), rng.randrange(65536, 307200), 65536, 131072, 262144, 300000])
+        base = {"stream": "recv-large", "key": hx(rb(rng, 32)), "ctr": rng.choice([0, 1, 2 ** 32 - 1, rng.randrange(2 ** 33)]), "pseed": rng.randrange(2 ** 32),
+                "total": total, "mode": mode}
+        blocks = _large_blocks(base["pseed"], total, mode)
+        offs, off = [], 0
+        for b in blocks:
+            offs.append(off)
+            off += 2 + len(b) + 16
+        L = off
+        for j, sched in enumerate(SCHEDS):
+            one({**base, "kind": "valid", "sched": sched, "reads": _sched_reads(rng, L, sched)}, i < 2 and sched in ("one-read", "few-cuts"))
+        # the burst stops in the middle of its last frames: everything before is delivered, no error
+        cut_at = rng.randrange(max(L - 3000, 1), L)
+        sched = rng.choice(SCHEDS)
+        one({**base, "kind": "truncated", "sched": sched, "cut_at": cut_at, "reads": _sched_reads(rng, cut_at, sched)}, False)
+        # one bit of a frame late in the burst (prefix, ciphertext or tag) is corrupted
+        nb = rng.randrange(len(blocks) * 2 // 3, len(blocks))
+        flen = 2 + len(blocks[nb]) + 16
+        byte = offs[nb] + rng.choice([0, 1, rng.randrange(2, flen - 16), rng.randrange(flen - 16, flen)])
+        sched = rng.choice(SCHEDS)
+        one({**base, "kind": "bitflip", "sched": sched, "flip": byte * 8 + rng.randrange(8), "reads": _sched_reads(rng, L, sched)}, i == 0)
+    if cases:
+        ctx.sample({k: (v if len(str(v)) < 200 else str(v)[:200] + "...") for k, v in cases[0].items()}, limit=8)
+    compare_with_model(ctx, "recv", cases, outs, lines, driver)
+
+
+def _run_e2e(ctx, loop):
+    """whole sessions, real HTTP layer: the request future gets exactly the body the accessory sent"""
+    rng = ctx.rng
+    for i in range(ctx.budget(10, 120)):
+        exchanges = []
+        for j in range(rng.choice([1, 2, 3])):
+            mode = rng.choice(LARGE_MODES[:3]) if rng.randrange(4) else "small"
+            body_len = rng.choice([rng.randrange(1, 5000), rng.randrange(61440, 98304)]) if mode == "small" else rng.choice([rng.randrange(1, 5000), rng.randrange(61440, 307200), rng.randrange(61440, 307200)])
+            ex = {"seed": rng.randrange(2 ** 32), "req_len": rng.choice([0, 40, rng.randrange(1, 3000), rng.randrange(61440, 204800)]), "body_len": body_len, "mode": mode,
+                  "event_len": rng.choice([None, None, rng.randrange(1, 2000)])}
+            _, _, _, blocks = _e2e_messages(ex)
+            L = sum(2 + len(b) + 16 for b in blocks)
+            ex["sched"] = SCHEDS[(i + j) % len(SCHEDS)]
+            ex["reads"] = _sched_reads(rng, L, ex["sched"])
+            exchanges.append(ex)
+        case = {"stream": "e2e", "a2c": hx(rb(rng, 32)), "c2a": hx(rb(rng, 32)), "exchanges": exchanges}
+        v = e2e_run(loop, case)
+        ctx.evaluations += 1
+        ctx.dist["e2e:sessions"] += 1
+        for ex in exchanges:
+            ctx.dist["e2e:" + ex["sched"]] += 1
+            ctx.nontrivial.add(("e2e", ex["mode"], ex["sched"], ex["body_len"] > 65536, ex["req_len"] > 65536, ex["event_len"] is not None, v and v[0]))
+        if v:
+            ctx.violation(v[0], v[1], case)
 
 
 def replay(ctx, driver, c):
@@ -291,9 +659,19 @@ def replay(ctx, driver, c):
     try:
         nv = len(ctx.violations)
         nm = len(ctx.mismatches)
-        if c["stream"] == "send":
+        if c["stream"] == "recv-large":
+            sig, what, s, chunks, _, _ = large_recv(loop, c)
+            if sig:
+                return what
+            compare_with_model(ctx, "recv", [c], [s], [f"sf.recv {c['key']} {c['ctr']} - " + " ".join(hx(x) for x in chunks)], driver)
+        elif c["stream"] == "e2e":
+            asyncio.set_event_loop(loop)
+            v = e2e_run(loop, c)
+            if v:
+                return v[1]
+        elif c["stream"] == "send":
             key = bytes.fromhex(c["key"])
-            payload = bytes.fromhex(c["payload"]) if c["payload"] != "-" else b""
+            payload = _send_payload(c)
             calls, ctr2 = impl_send(loop, key, c["ctr"], payload)
             if calls is None:
                 return f"send raised {ctr2}"
